@@ -361,6 +361,18 @@ def run_case(case):
             out = run_model(cls, single.copy(), kw); obs["c19.converse_judged"] += 1
             if out["exc"] is not None:
                 viol.append({"sig": f"C19/in-domain-input-raises/{cls}/{out['exc']}/single-edge", "msg": f"{out['exc']}: {out.get('msg')}"})
+        # explicit None for the option dictionaries (several docstrings give None as the default)
+        Gn = nx.DiGraph(); Gn.add_edge("a", "b", flow=2); Gn.add_edge("b", "c", flow=2); Gn.add_edge("a", "c", flow=1)
+        for cls in W.ALL:
+            for which in ("solver_options", "optimization_options"):
+                kw = {} if cls in W.COV else {"flow_attr": "flow", "weight_type": int}
+                if cls.startswith("k"):
+                    kw["k"] = 2
+                kw["solver_options"] = dict(SO)
+                kw[which] = None
+                out = run_model(cls, Gn.copy(), kw); obs["c19.converse_judged"] += 1
+                if out["exc"] is not None:
+                    viol.append({"sig": f"C19/in-domain-input-raises/{cls}/{out['exc']}/{which}=None", "msg": f"{out['exc']}: {out.get('msg')} at {out['stage']}"})
         # an exactly conserved float flow (same multiset of values in and out of v) must be accepted whatever the insertion order of the edges
         for order in ([0.1, 0.2, 0.3], [0.3, 0.2, 0.1], [0.2, 0.3, 0.1]):
             Gf = nx.DiGraph()
